@@ -115,10 +115,64 @@ class Env:
         del self.vars[name]
 
 
+def _fp(v, depth=2):
+    """cheap fingerprint of a local value: detects rebinding and in-place mutation of containers / plain objects during the generic iteration of a cut loop"""
+    if isinstance(v, (dict,)):
+        return ("d", id(v), len(v), tuple((id(k), id(x)) for k, x in v.items())) if depth else ("d", id(v), len(v))
+    if isinstance(v, (list, set)):
+        return (type(v).__name__, id(v), len(v), tuple(id(x) for x in v)) if depth else (type(v).__name__, id(v), len(v))
+    if isinstance(v, np.ndarray):
+        return ("nd", id(v), v.tobytes() if v.dtype != object else tuple(id(x) for x in v.flat))
+    d = getattr(v, "__dict__", None)
+    if isinstance(d, dict) and depth and not isinstance(v, (type, types.ModuleType, types.FunctionType, GhostIterable)) and not callable(v) and type(v).__name__ != "Interp":
+        return ("o", id(v), tuple((k, _fp(x, depth - 1)) for k, x in d.items()))
+    return ("v", id(v))
+
+
+def _frame_state(env):
+    """fingerprints of the function-local variables visible at a loop (the frame that the loop body can carry state in)"""
+    out = {}
+    e = env
+    while e is not None:
+        for k, v in e.vars.items():
+            if k not in out and not k.startswith("__"):
+                out[k] = _fp(v)
+        e = e.parent
+    return out
+
+
+def _check_loop_carried(itv, before, env, targets):
+    """soundness guard of the loop cut: every variable that existed before the loop and that the generic iteration rebinds or mutates in place is loop-carried state; it
+    must be covered by the contract's invariant protocol (`managed`), otherwise the single generic iteration says nothing about later iterations -> undecided"""
+    managed = set(getattr(itv, "managed", ()) or ())
+    for a in (itv._atoms() if isinstance(itv, GSeq) else []):
+        managed |= set(getattr(a.proto, "managed", ()) or ())
+    if "*" in managed:
+        return
+    after = _frame_state(env)
+    bad = [k for k, f in before.items() if k in after and after[k] != f and k not in managed and k not in targets]
+    if bad:
+        raise Unsupported(f"loop-carried state not covered by the loop invariant of the contract: {sorted(bad)} (changed by the generic iteration of a cut loop)")
+
+
+def _target_names(t):
+    if isinstance(t, ast.Name):
+        return {t.id}
+    if isinstance(t, (ast.Tuple, ast.List)):
+        out = set()
+        for e in t.elts:
+            out |= _target_names(e)
+        return out
+    return set()
+
+
 class GhostIterable:
-    """protocol object standing for a collection of unknown size in a `for` loop (see Interp.s_For); contracts subclass it"""
+    """protocol object standing for a collection of unknown size in a `for` loop (see Interp.s_For); contracts subclass it.
+    `managed`: names of the local variables of the function under contract whose change across iterations is described by the protocol (havoc + step); any other
+    pre-existing local that the generic iteration rebinds or mutates makes the cut unsound and is reported as Unsupported ('*' = everything is managed)"""
 
     reversed = False
+    managed = ()
 
     def init(self, interp, env):
         pass
@@ -960,6 +1014,7 @@ class Interp:
                 self.exec_block(s.orelse, env)      # empty sequence: the loop body does not run, the entry state is the exit state
                 return
             itv.havoc(self, env)
+            frame = _frame_state(env)
             self.assign(s.target, itv.element(), env)
             broke = False
             try:
@@ -968,6 +1023,7 @@ class Interp:
                 broke = True
             except _Continue:
                 pass
+            _check_loop_carried(itv, frame, env, _target_names(s.target))
             itv.step(self, env, broke)
             itv.exit(self, env)
             if not broke:
@@ -1333,9 +1389,11 @@ class Interp:
         if not itv.nonempty():
             return GSeq("comp", src=itv, kept=False, image=None, n="empty"), itv
         itv.havoc(self, en)
+        frame = _frame_state(en)
         self.assign(gens[0].target, itv.element(), en)
         kept = all(truth(self.eval(c, en)) for c in gens[0].ifs)
         image = self.eval(e.elt, en) if kept else None
+        _check_loop_carried(itv, frame, en, _target_names(gens[0].target))
         itv.step(self, en, False)
         itv.exit(self, en)
         return GSeq("comp", src=itv, kept=kept, image=image), itv
